@@ -1,8 +1,12 @@
 """C11 Watermarks are monotone; operators act on the minimum of their upstreams.
-Runner half: spec/Watermark.tla bound to wmark.Watermarker (and, in the
-thorough tier, to streams recorded from a real SourceRunner).
+Runner half: spec/Watermark.tla bound to wmark.Watermarker, to streams recorded
+from free-running real SourceRunners, and - with keying, operator back-pressure
+and an eager sender switched on - replayed on a real SourceRunner through gated
+reader / handler / operator adapters (mode srsched), the received stream being
+validated by WatermarkTrace.tla.
 Operator half: spec/Timers.tla (up[sr], Min(up)) bound to a real
-operator.Operator and to TimerRegistry."""
+operator.Operator and to TimerRegistry; spec/TimersOp.tla (event batches,
+restore, re-deployment of the same Operator) bound in mode opbatch."""
 import json
 import vlib
 import c10
@@ -13,13 +17,19 @@ RULE = ("runner half: TLC proves Monotone/Below/Close of Watermark.tla for every
         "that timestamp - 1ns; operator half: TLC proves HandlerWM/NoLateFire of Timers.tla; every interleaving of <= 4 "
         "watermark messages of 2-3 runners with events is executed on a real operator.Operator: "
         "ProcessEventBatchRequest.Watermark must equal Min(up) (epoch for a runner that has not reported) on every "
-        "handler call and the TimerExpired deliveries must be exactly the pending timers at or before Min(up)")
+        "handler call and the TimerExpired deliveries must be exactly the pending timers at or before Min(up); schedules of "
+        "Watermark.tla with asynchronous keying and a slow operator (reads, ticks, keying completions and operator deliveries in "
+        "model-chosen order, incl. the witnesses of 'maxTimestamp advances at keying') are replayed on a real SourceRunner and "
+        "the stream its operator received must satisfy Monotone/Below/Close; behaviours of TimersOp.tla (batches of 1-3, "
+        "restore, redeploy of the same Operator with and without a checkpoint) are executed on a real Operator and every "
+        "handler call must be told Min(up) of the current deployment")
 
 WM_INV = ["Monotone", "Below", "Close", "ImplOK"]
 
 
 def wm_consts(**kw):
-    c = dict(MaxTs=4, MaxEv=5, MaxTick=3, Lateness=0, StampAtSend=True, MaxLen=100000)
+    c = dict(MaxTs=4, MaxEv=5, MaxTick=3, Lateness=0, StampAtSend=True, Keying=False, MaxAhead=2, Pipe=0, Eager=False,
+             Dev_AdvanceAtKeyed=False, StopAtBad=False, MaxLen=100000)
     c.update(kw)
     return c
 
@@ -36,6 +46,80 @@ def runner_half(c, ex, nsim, seed):
         if behs and i == 0:
             c.sample(dict(kind="Watermark behaviour replayed on wmark.Watermarker",
                           steps=" ".join("%s%s" % (s["a"], "(%s)" % s["ts"] if s["a"] == "Read" else "") for s in behs[0])))
+
+
+BACKPRESSURE = dict(Keying=True, MaxAhead=2, Pipe=2)
+
+
+def wm_show(b):
+    return " ".join("%s%s" % (s["a"], "(%s)" % s["ts"] if s["a"] == "Read" else ("[%s]" % s["ty"] if s["a"] == "Send" else "")) for s in b)
+
+
+def judge_streams(c, events, payload, label, count=True):
+    """events: the streams real SourceRunners sent (runs separated by Reset lines); TLC replays them into Watermark's
+    `out` and checks Monotone/Below/Close in every state reached"""
+    ok, at, tr = vlib.validate_trace("WatermarkTrace", wm_consts(), events, invariants=["Monotone", "Below", "Close"])
+    c.add_tlc(tr, "WatermarkTrace validation (%s)" % label, must_hold=False)
+    runs_ = vlib.split_runs(events)
+    if ok:
+        if count:
+            c.traces += len(runs_)
+        return True, runs_
+    line = at - 1 if tr.violated else at      # invariant broken by the state *after* line at-1 / line `at` not explained
+    bad = [r_ for r_ in runs_ if r_[0] <= line][-1]
+    idx = max(0, min(line - bad[0], len(bad[1]) - 1))
+    one = dict(payload, recorded_run=bad[1], rejected_index=idx)
+    sched = ""
+    if payload.get("behaviours"):
+        b = payload["behaviours"][events[bad[0] - 2]["b"]]
+        one["behaviours"] = [b]
+        sched = "; schedule: " + wm_show(b)
+    c.add_violation("stream sent by a real SourceRunner breaks the runner half of C11 (%s) at element %d: %s; stream received by its operator: %s%s" %
+                    (tr.violated, idx, json.dumps(bad[1][idx]), json.dumps(bad[1][:idx + 1]), sched), one)
+    return False, runs_
+
+
+def source_runner_sched(c, nsim, keep, seed, par=12):
+    """model -> code -> model: schedules of Watermark.tla (keying, back-pressure of a slow operator, eager sender) on a real
+    SourceRunner through gates; (1) simulated schedules of the model as it is, (2) every witness (thinned to `keep`) of the
+    deviation 'maxTimestamp advances when the event is keyed' - a tick queued behind a stalled sender, stamped after a later
+    event was keyed but before it is forwarded"""
+    k = wm_consts(Eager=True, MaxLen=26, **BACKPRESSURE)
+    sims, r = vlib.gen_behaviours("Watermark", k, nsim, 60, seed)
+    kw = wm_consts(Eager=True, MaxEv=3, MaxTs=3, MaxTick=3, Dev_AdvanceAtKeyed=True, StopAtBad=True, **BACKPRESSURE)
+    r = vlib.run_tlc("Watermark", cfg=dict(constants=kw, invariants=["DumpBad"], view="view"), workers=1, timeout=900, name="Watermark-wit")
+    if not r.ok or not r.behaviours:
+        raise vlib.MachineryError("witness enumeration failed: %s %s\n%s" % (r.error, r.violated, r.out[-2000:]))
+    wits = sorted(r.behaviours, key=lambda b: (len(b), json.dumps(b, sort_keys=True)))
+    if len(wits) > keep:
+        step = len(wits) / float(keep)
+        wits = [wits[int(i * step)] for i in range(keep)]
+    for label, behs in (("simulated schedules", sims), ("witness schedules of Dev_AdvanceAtKeyed", wits)):
+        payload = dict(property="C11", seed=c.seed, config=dict(Mode="srsched", Parallel=par), behaviours=behs, mode="srsched-trace")
+        res = vlib.run_harness("timers", payload)
+        events = res.pop("samples", [])
+        c.add_harness(res, payload, "SourceRunner schedule replay (%d %s)" % (len(behs), label))
+        if not events:
+            raise vlib.MachineryError("no stream recorded")
+        ok, runs_ = judge_streams(c, events, payload, "%d streams of SourceRunners driven through %s" % (res.get("executed", 0), label), count=False)
+        if ok and label.startswith("simulated"):
+            c.sample(dict(kind="schedule replayed on a real SourceRunner", schedule=wm_show(behs[0]), stream=runs_[0][1][:16]))
+            if res.get("counters", {}).get("stream_differs_from_model", 0) * 2 > len(behs):
+                c.errors.append("srsched: %s of %d replayed streams differ from the model's prediction (the gates do not drive the runner as modelled)" %
+                                (res["counters"]["stream_differs_from_model"], len(behs)))
+
+
+def operator_level(c, s, n, nwit):
+    """operator half at the handler of a real Operator: batches of 1..3, restore, and re-deployment of the SAME Operator
+    (with and without a checkpoint): the first handler calls of a deployment must be told the epoch"""
+    gen = dict(c10.OP_GEN, MaxRestore=1, MaxRedeploy=2, MaxCkpt=2)
+    c10.op_exhaustive(c, [c10.op_consts(BatchMax=2, MaxRedeploy=2, MaxEv=2, MaxTimeout=1)])
+    for i, (k, h) in enumerate([(c10.op_consts(BatchMax=1, **gen), dict()),
+                                (c10.op_consts(BatchMax=2, NSR=3, **gen), dict(Unit=1000000000)),
+                                (c10.op_consts(BatchMax=3, **gen), dict(RangeIdx=1))][:2 if c.tier == "quick" else 3]):
+        c10.op_replay_sim(c, "C11", k, n, s + 80 + i, hcfg=h)
+    for i, bm in enumerate((1, 2) if c.tier == "quick" else (1, 2, 3)):
+        c10.op_adversarial(c, "C11", c10.op_consts(BatchMax=bm, **dict(gen, MaxLen=16)), "Dev_StaleToldWM", nwit, s + 90 + i, 60)
 
 
 def all_interleavings(c, k, label, limit=None, mode="operator", hcfg=None):
@@ -79,11 +163,12 @@ def run(c):
     s = c.seed * 1000
     tiny = c10.consts(KGCode=1, LenCode=1, NG=1, MaxT=1, NSR=2, MaxBytes=c10.cap(1), MaxSet=2, MaxAdv=4, MaxCkpt=0, MaxRestore=0)
     if c.tier == "quick":
-        runner_half(c, [wm_consts()], 600, s)
+        runner_half(c, [wm_consts(), wm_consts(MaxEv=4, **BACKPRESSURE)], 600, s)
         ex = [c10.consts(KGCode=12, LenCode=11, MaxT=2, NSR=3, MaxAdv=4)]
         nsim = 80
     else:
-        runner_half(c, [wm_consts(), wm_consts(MaxTs=5, MaxEv=5, MaxTick=3), wm_consts(Lateness=2)], 4000, s)
+        runner_half(c, [wm_consts(), wm_consts(MaxTs=5, MaxEv=5, MaxTick=3), wm_consts(Lateness=2), wm_consts(MaxEv=4, **BACKPRESSURE),
+                        wm_consts(MaxEv=5, MaxTick=4, Eager=True, **BACKPRESSURE)], 4000, s)
         ex = [c10.consts(KGCode=12, LenCode=11, MaxT=2, NSR=3, MaxAdv=4),
               c10.consts(KGCode=12, LenCode=11, MaxT=3, NSR=3, MaxAdv=5, MaxSet=3, PreEpochWM=True),
               c10.consts(MaxT=3, NSR=2, PreEpochWM=True, MaxSet=3, MaxAdv=6)]
@@ -110,8 +195,18 @@ def run(c):
     c10.replay_sim(c, "C11", c10.consts(MaxT=4, NSR=3, **gen), nsim, s + 20, mode="operator")
     c10.replay_sim(c, "C11", c10.consts(MaxT=4, NSR=2, **gen), nsim, s + 21, mode="operator", hcfg=dict(Unit=1000000000))
     c10.adversarial(c, "C11", c10.consts(MaxT=4, NSR=2, MaxSet=12, MaxAdv=99, MaxLen=24), ["Dev_ZeroWatermark"], 500, s + 22, 40)
+    if c.tier == "quick":
+        operator_level(c, s, 90, 250)
+        source_runner_sched(c, 40, 36, s + 30)
+    else:
+        operator_level(c, s, 500, 1500)
+        source_runner_sched(c, 300, 240, s + 30)
     source_runner(c, 16 if c.tier == "quick" else 120)
     c.assumptions += [
+        "srsched: the runner's 200 ms ticker is real time: a Tick step waits for its next boundary, every other step is followed by "
+        "a 4 ms pause for the runner's goroutines to settle; where the machine is slower than that the stream differs from the "
+        "model's (counted, never judged): the verdict is taken from the stream the operator received, by WatermarkTrace.tla",
+        "opbatch (TimersOp.tla): see C10; the same Operator object is only re-deployed with no checkpoint open and an empty batch",
         "wmark.Watermarker.allowedLateness is unexported and always zero in the runner: the code is exercised with lateness 0 "
         "(Watermark.tla is also checked for lateness 2)",
         "the operator runs with event batch size 1 so that each keyed event / expired timer is one handler call",
@@ -163,6 +258,16 @@ def source_runner(c, runs, seed=None):
 
 def replay(c, path):
     payload = json.load(open(path))
+    if payload.get("mode") == "srsched-trace":   # judge the recorded stream itself, then drive the schedule again (3 times)
+        if "recorded_run" in payload:
+            judge_streams(c, payload["recorded_run"], dict(payload, behaviours=[]), "the recorded run")
+        again = dict(payload, behaviours=payload["behaviours"] * 3)
+        res = vlib.run_harness("timers", again)
+        events = res.pop("samples", [])
+        c.add_harness(res, again, "SourceRunner schedule replay")
+        if events:
+            judge_streams(c, events, again, "the schedule driven again", count=False)
+        return
     if payload.get("mode") == "sourcerunner-trace":
         if "recorded_run" in payload:   # judge the recorded stream itself, then record again with the same seed
             ok, at, tr = vlib.validate_trace("WatermarkTrace", wm_consts(), payload["recorded_run"], invariants=["Monotone", "Below", "Close"])
